@@ -237,11 +237,13 @@ def r11_5(ctx):
         if s.pick is not None:
             picks[id(s.pick["node"])] = s
     expect = {TASK: ("sort_task_list", None), WORKER: ("sort_worker_list", "worker_priority_rule"), FACILITY: ("sort_facility_list", "facility_priority_rule")}
-    for n in ast.walk(f.node):
-        if isinstance(n, ast.For):
-            t = ctx.types.ftypes(f).type_of(n.iter)
-            if t and t[0] == "list" and t[1] == ("obj", WORKPLACE) and any(isinstance(c, ast.Call) and ast.unparse(c.func).endswith("set_placed_workplace") for c in ast.walk(n)):
-                loops[id(n)] = type("L", (), {"node": n, "elem_cls": WORKPLACE, "loc": f.loc(n)})()
+    from ..alloc import alloc_region
+    for g in alloc_region(ctx):
+        for n in ast.walk(g.node):
+            if isinstance(n, ast.For):
+                t = ctx.types.ftypes(g).type_of(n.iter)
+                if t and t[0] == "list" and t[1] == ("obj", WORKPLACE) and any(isinstance(c, ast.Call) and ast.unparse(c.func).endswith("set_placed_workplace") for c in ast.walk(n)):
+                    loops[id(n)] = type("L", (), {"node": n, "elem_cls": WORKPLACE, "loc": g.loc(n), "func": g})()
     expect[WORKPLACE] = ("sort_workplace_list", "workplace_priority_rule")
     seen = set()
     for lp in loops.values():
@@ -252,7 +254,8 @@ def r11_5(ctx):
         sorter, rule_attr = expect[cls]
         con = construct(f, f"order:{cls}")
         ctx.instance(f"{con}@{lp.node.lineno}")
-        ok, why = order_provenance(ctx, f, Interp._source_name(lp.node.iter), lp.node, sorter, rule_attr)
+        host = getattr(lp, "func", None) or f   # the function whose body holds the loop (the allocator or one of its helpers)
+        ok, why = order_provenance(ctx, host, Interp._source_name(lp.node.iter), lp.node, sorter, rule_attr)
         if not ok:
             ctx.violation(con, lp.loc if hasattr(lp, "loc") else f.loc(lp.node), f"allocation loop over {cls} candidates: {why}: candidates are not visited in priority order")
     for s in picks.values():
@@ -261,7 +264,7 @@ def r11_5(ctx):
         con = construct(f, f"order:{WORKER}")
         node = s.pick["node"]
         ctx.instance(f"{con}@pick{node.lineno}")
-        ok, why = order_provenance(ctx, f, s.cand_name, node, sorter, rule_attr)
+        ok, why = order_provenance(ctx, s.ev["task<-worker"].func, s.cand_name, node, sorter, rule_attr)
         if ok and s.pick["index"] != 0:
             ok, why = False, f"the worker is picked as `{s.pick['text']}`, not the first of the ordered candidates"
         if not ok:
